@@ -134,6 +134,12 @@ def cmd_run(props, jobs=6):
         print("%-5s %-40s %s  %s" % (prop, name, "caught" if ok else "MISSED", msg))
         bad += 0 if ok else 1
     print("%d mutants, %d missed" % (len(results), bad))
+    if not bad and not props:
+        # reference tree for the thorough tier's self-test (lib/engine.py selftest): on this tree every control is reported
+        sys.path.insert(0, VERIF)
+        from lib import extract as _ex
+        with open(os.path.join(VERIF, "mutants", "VERIFIED.json"), "w") as fh:
+            json.dump({"tree": _ex.tree_hash(REPO), "mutants": len(results), "what": "tools/mut.py run: every stored mutant reported by its property's check"}, fh, indent=1)
     return 1 if bad else 0
 
 
